@@ -804,7 +804,7 @@ static void scenarios(std::vector<hm::Scenario>& out) {
             sc.sigclass = std::string("epoch:") + wn[p.w] + "-vs-" + rn[p.r];
             sc.bound_quick = 2;
             sc.bound_thorough = (p.quick && third != 1) ? 3 : 2;
-            sc.quick = p.quick && (third != 1 || (p.w == W_REMOVE && p.r == R_GET));
+            sc.quick = p.quick && (third == 0 || third == 3 || (third == 1 && p.w == W_REMOVE && p.r == R_GET)); // +pre (long epoch horizon) is thorough only
             sc.cls_mask = (1u << ykmc::C_SESSION) | (1u << ykmc::C_EPOCH) | (1u << ykmc::C_GCQ) | (1u << ykmc::C_STOP) | (1u << ykmc::C_HARNESS);
             Cfg c;
             c.w = p.w;
